@@ -165,7 +165,8 @@ type Violation struct {
 
 // covObserver counts schema-evolution events (vacuity guard).
 type covObserver struct {
-	n map[string]int
+	n  map[string]int
+	st *Stream
 }
 
 func (o *covObserver) OnNewField(r, f string)                   { o.n["newfield"]++ }
@@ -174,7 +175,14 @@ func (o *covObserver) OnDictionaryOverflow(r, f string, c, t uint64)            
 func (o *covObserver) OnSchemaUpdate(r string, old, new *arrow.Schema)                   { o.n["schemaupdate"]++ }
 func (o *covObserver) OnDictionaryReset(r, f string, i arrow.DataType, c, t uint64)      { o.n["reset"]++ }
 func (o *covObserver) OnMetadataUpdate(r, k string)                                      { o.n["metadata"]++ }
-func (o *covObserver) OnRecord(arrow.Record, record_message.PayloadType)                 {}
+func (o *covObserver) OnRecord(arrow.Record, record_message.PayloadType) {
+	if st := o.st; st != nil && st.fault != nil && st.stepNo == st.fault.Step {
+		if st.recNo == st.fault.Record {
+			st.falloc.armed = true
+		}
+		st.recNo++
+	}
+}
 
 type subStream struct {
 	ptype   colarspb.ArrowPayloadType
@@ -186,7 +194,47 @@ type subStream struct {
 	maxDict int
 }
 
+// ProdFault is one environment fault: the allocator given to the producer
+// refuses the first allocation made after the Record-th record of step Step has
+// been handed to the IPC writer (the observer's OnRecord is the last call before
+// ipc.Writer.Write). arrow-go turns that panic into an error returned by the
+// encode call. After the fault only the batch-id clause of C12 is judged (the
+// property does not promise anything else about a producer whose allocator failed).
+type ProdFault struct {
+	Step   int `json:"step"`
+	Record int `json:"record"`
+}
+
+type faultAlloc struct {
+	memory.Allocator
+	armed bool
+	fired int
+}
+
+func (a *faultAlloc) Allocate(size int) []byte {
+	if a.armed {
+		a.armed = false
+		a.fired++
+		panic(fmt.Errorf("injected allocation failure (%d bytes)", size))
+	}
+	return a.Allocator.Allocate(size)
+}
+
+func (a *faultAlloc) Reallocate(size int, b []byte) []byte {
+	if a.armed {
+		a.armed = false
+		a.fired++
+		panic(fmt.Errorf("injected allocation failure (%d bytes)", size))
+	}
+	return a.Allocator.Reallocate(size, b)
+}
+
 type Stream struct {
+	fault    *ProdFault
+	falloc   *faultAlloc
+	stepNo   int
+	recNo    int
+	faulted  bool
 	opts    Options
 	mon     Monitors
 	prod    *arrow_record.Producer
@@ -220,10 +268,17 @@ func payloadDigests(bar *colarspb.BatchArrowRecords) []string {
 	return out
 }
 
-func NewStream(o Options, mon Monitors) *Stream {
+func NewStream(o Options, mon Monitors) *Stream { return NewStreamFault(o, mon, nil) }
+
+func NewStreamFault(o Options, mon Monitors, f *ProdFault) *Stream {
 	st := &Stream{opts: o, mon: mon, obs: &covObserver{n: map[string]int{}}, subs: map[string]*subStream{}, cur: map[colarspb.ArrowPayloadType]string{}}
+	st.obs.st = st
 	extra := []cfg.Option{cfg.WithObserver(st.obs)}
-	if mon.Alloc {
+	if f != nil {
+		st.fault = f
+		st.falloc = &faultAlloc{Allocator: memory.NewGoAllocator()}
+		extra = append(extra, cfg.WithAllocator(st.falloc))
+	} else if mon.Alloc {
 		st.alloc = memory.NewCheckedAllocator(memory.NewGoAllocator())
 		extra = append(extra, cfg.WithAllocator(st.alloc))
 	}
@@ -371,6 +426,7 @@ func (st *Stream) Step(l Letter) (viol []Violation) {
 			x.MarkReadOnly()
 		}
 	}
+	st.recNo = 0
 	pan := protect(func() {
 		switch x := in.(type) {
 		case ptrace.Traces:
@@ -381,6 +437,27 @@ func (st *Stream) Step(l Letter) (viol []Violation) {
 			bar, err = st.prod.BatchArrowRecordsFromMetrics(x)
 		}
 	})
+	st.stepNo++
+	if st.fault != nil {
+		st.falloc.armed = false
+		if st.falloc.fired > 0 && !st.faulted {
+			st.faulted = true
+			st.obs.n["injected_alloc_faults"]++
+			if err != nil && pan == "" {
+				st.obs.n["injected_alloc_faults_returned_as_error"]++
+			}
+		}
+		if st.faulted {
+			// after the injected fault: only "batch ids of emitted batches count up by one"
+			if pan == "" && err == nil && bar != nil {
+				if bar.BatchId != st.okCalls {
+					add("C12", "batch_id=%d, expected %d: an encode call that failed (allocation refused while the IPC writer was writing a record) must not consume a batch id", bar.BatchId, st.okCalls)
+				}
+				st.okCalls++
+			}
+			return viol
+		}
+	}
 	if st.mon.Immutable {
 		var after []byte
 		switch x := in.(type) {
